@@ -9,6 +9,7 @@ import (
 	"net/netip"
 
 	"github.com/IrineSistiana/mosproxy/internal/dnsmsg"
+	"github.com/IrineSistiana/mosproxy/internal/pool"
 )
 
 // Export shims for the verification harness (overlay file, not part of the repository).
@@ -104,4 +105,25 @@ func (v *VerifRouter) Owns(x any) bool {
 }
 
 // VerifMakeTlsConfig exposes makeTlsConfig (CA / skip-verify / certificate / client verification handling).
-func VerifMakeTlsConfig(cfg *TlsConfig, server bool) (*tls.Config, error) { return makeTlsConfig(cfg, server) }
+func VerifMakeTlsConfig(cfg *TlsConfig, server bool) (*tls.Config, error) {
+	return makeTlsConfig(cfg, server)
+}
+
+// Handle does what a stream listener does with one decoded query from `remote`: it is handed to the router and
+// the response is packed. Used for bursts of simultaneous queries that sockets cannot deliver at the same instant.
+func (v *VerifRouter) Handle(wire []byte, remote netip.AddrPort) ([]byte, error) {
+	m, err := dnsmsg.UnpackMsg(wire)
+	if err != nil {
+		return nil, err
+	}
+	defer dnsmsg.ReleaseMsg(m)
+	rc := getRequestContext()
+	rc.RemoteAddr = remote
+	rc.LocalAddr = netip.AddrPortFrom(netip.MustParseAddr("127.0.0.1"), 53)
+	defer releaseRequestContext(rc)
+	v.r.handleServerReq(m, rc)
+	b := mustHaveRespB(m, rc.Response.Msg, dnsmsg.RCodeRefused, true, 0)
+	out := append([]byte(nil), b[2:]...)
+	pool.ReleaseBuf(b)
+	return out, nil
+}
